@@ -73,8 +73,10 @@ func linearizable(calls []*call, initial string, book *versionBook) (bool, strin
 	n := len(calls)
 	used := make([]bool, n)
 	var order []int
-	var try func(m model) bool
-	try = func(m model) bool {
+	// ver2content: versions whose content is known from snapshots, extended tentatively with the
+	// versions successful applies returned (each must name the content published at that point)
+	var try func(m model, known map[string]string) bool
+	try = func(m model, known map[string]string) bool {
 		if len(order) == n {
 			return true
 		}
@@ -94,6 +96,7 @@ func linearizable(calls []*call, initial string, book *versionBook) (bool, strin
 			}
 			c := calls[i]
 			m2 := m
+			k2 := known
 			switch c.kind {
 			case "snapshot":
 				if c.snap != m2.cur {
@@ -101,18 +104,35 @@ func linearizable(calls []*call, initial string, book *versionBook) (bool, strin
 				}
 			default:
 				withVer := c.kind == "apply-if"
-				isCur := withVer && book.byVersion[c.ver] == m2.cur
+				isCur := withVer && known[c.ver] == m2.cur
 				want := m2.apply(c.cand, withVer, isCur)
 				if resultOutcome(c.res, withVer, isCur) != want {
 					continue
 				}
-				if (want.Applied || want.Unchanged) && c.res.Version != "" && book.byVersion[c.res.Version] != m2.cur {
-					continue
+				if (want.Applied || want.Unchanged) && c.res.Version != "" {
+					if have, seen := known[c.res.Version]; seen && have != m2.cur {
+						continue
+					} else if !seen {
+						dup := false
+						for _, cont := range known {
+							if cont == m2.cur {
+								dup = true // that content already has another version
+							}
+						}
+						if dup {
+							continue
+						}
+						k2 = make(map[string]string, len(known)+1)
+						for a, b := range known {
+							k2[a] = b
+						}
+						k2[c.res.Version] = m2.cur
+					}
 				}
 			}
 			used[i] = true
 			order = append(order, i)
-			if try(m2) {
+			if try(m2, k2) {
 				return true
 			}
 			order = order[:len(order)-1]
@@ -120,7 +140,7 @@ func linearizable(calls []*call, initial string, book *versionBook) (bool, strin
 		}
 		return false
 	}
-	if try(model{cur: initial}) {
+	if try(model{cur: initial}, book.byVersion) {
 		names := make([]string, n)
 		for k, i := range order {
 			names[k] = describe(calls[i])
@@ -153,7 +173,7 @@ func resultWord(r LiveConfigResult) string {
 // finish is the end-of-execution oracle.
 func (l *rec) finish(g *Gate, contents map[string]bool) {
 	x := l.x
-	initial := content(initialConfig())
+	initial := contentOf("")
 	book := newBook()
 	// version book from everything observed + a final snapshot
 	fsnap, fver, err := g.ConfigSnapshot()
@@ -212,9 +232,9 @@ func (l *rec) finish(g *Gate, contents map[string]bool) {
 }
 
 func candidateContents(kinds ...string) map[string]bool {
-	m := map[string]bool{content(initialConfig()): true}
+	m := map[string]bool{contentOf(""): true}
 	for _, k := range kinds {
-		m[content(buildCandidate(k))] = true
+		m[contentOf(k)] = true
 	}
 	return m
 }
